@@ -29,4 +29,5 @@ fn syscall_state_per_function_type()
     assert!(syscall(&mut world, x, counting_a) == x + 3, "C17: and does not disturb the first one's");
     assert!(world.syscall_once(x, counting_a) == x + 1, "C17: syscall_once uses a fresh, uncached system");
     std::mem::forget(world);
+    kani::cover!(true, "end of harness reached");
 }
